@@ -72,6 +72,14 @@ class H:
 
 @symbol
 @dataclass(eq=False)
+class HFalsy(H):
+    """a head class whose instances are FALSY (a container-like class with __len__): an inferred instance is an instance"""
+    def __len__(self):
+        return 0
+
+
+@symbol
+@dataclass(eq=False)
 class HBase:
     """a base class with a keyword-only field: its position in the field list is not its position in the signature"""
     origin: Any = field(default='base', kw_only=True)
@@ -407,7 +415,7 @@ class Builder:
             from entity_query_language.entity import infer
             style = case.get('head_style', 'kw')
             if style == 'kw':
-                head = H(**{f'h{i}': s_ for i, s_ in enumerate(sel)})
+                head = (HFalsy if case.get('falsy_head') else H)(**{f'h{i}': s_ for i, s_ in enumerate(sel)})
             elif style == 'pos':
                 head = HK(*sel)                              # positional arguments, keyword-only parameters in between
             else:
@@ -432,7 +440,7 @@ def rows_of(q, sel, form, objs, quant=None):
     out = []
     if form == 'infer':
         made = list(q.evaluate())
-        if any(type(o) not in (H, HK) for o in made) or len({id(o) for o in made}) != len(made):
+        if any(type(o) not in (H, HK, HFalsy) for o in made) or len({id(o) for o in made}) != len(made):
             return 'X not-new-instances'
         if any(type(o) is HK and (o.origin != 'base' or o.weight not in (3, 7)) for o in made):
             return 'X not-new-instances'
